@@ -254,7 +254,7 @@ class C19(PropCheck):
     def generate(self):
         q = self.tier == 'quick'
         nbox, nline, nbuild, npost, nw = (260, 320, 40, 220, 90) if q else (3200, 4000, 500, 2800, 1100)
-        nfam, nhist = (110, 90) if q else (1300, 1000)
+        nfam, nhist = (110, 90) if q else (1000, 800)
         r = self.rng
         for _ in range(nbox):
             b = self.gen_box()
@@ -442,15 +442,16 @@ class C19(PropCheck):
         for i in range(nreg):
             # most objectives take, at their region's centre, a value between the smallest and the largest cut-off
             # (so that the count at a revisited point depends on which cut-off is in force)
-            if r.random() < 0.7:
+            if r.random() < 0.85:
                 a = [ufr(x) for x in regs[i]['c']]
                 a[r.randrange(D)] += r.choice([1, -1]) * (lo + (hi - lo) * Fr(r.randint(1, 3), 4)) / scales[i]
                 anchors[i] = [sfr(x) for x in a]
         eps_vals = [lo, hi] + ([Fr(r.randint(4, 16), 8)] if r.random() < 0.5 else [])
         r.shuffle(eps_vals)
-        prior = r.choice([['box', [4.0, 0.125]], ['box', [1.0, 0.5]], ['tent', 8.0], ['const', 0.375]])
+        prior = r.choice([['box', [4.0, 0.125]], ['box', [2.0, 0.25]], ['tent', 8.0], ['const', 0.375]])
         npool = r.randint(3, 6)
         pool = [r.choice(['centre', 'centre', 'centre', 'anchor', 'boundary', 'rand', 'rand', 'tie', 'grid', 'far']) for _ in range(npool)]
+        pool[0] = 'centre'
         steps = []
         seen = []
         cur = eps_vals[0]
@@ -459,7 +460,8 @@ class C19(PropCheck):
             if i not in seen:
                 seen.append(i)
             return dict(op='eval', pt=i, batched=r.random() < 0.3, same_obj=r.random() < 0.5)
-        for _ in range(r.randint(1, 3)):
+        steps.append(ev(0))
+        for _ in range(r.randint(0, 2)):
             steps.append(ev(r.randrange(npool)))
         nres = 0
         for _ in range(r.randint(4, 10)):
@@ -471,7 +473,7 @@ class C19(PropCheck):
                 nres += 1
                 steps.append(dict(op='reset', eps=sfr(new)))
                 if seen and r.random() < 0.75:          # come back to a point that was evaluated before
-                    steps.append(ev(r.choice(seen)))
+                    steps.append(ev(0 if r.random() < 0.5 else r.choice(seen)))
             elif k < 0.70:
                 steps.append(ev(r.choice(seen) if seen and r.random() < 0.5 else r.randrange(npool)))
             elif k < 0.80 and D <= 2:
@@ -480,6 +482,11 @@ class C19(PropCheck):
                 steps.append(dict(op='sample', n2=r.randint(1, 3), seed=r.randrange(2 ** 31), emit=r.randrange(nreg)))
             else:
                 steps.append(dict(op='worker', n2=r.randint(1, 3), pseed=r.randrange(2 ** 31), emit=r.randrange(nreg)))
+        if nres == 0:                                   # every history changes the cut-off at least once
+            new = r.choice([e for e in eps_vals if e != cur])
+            self.bump('hist/reset=' + ('smaller' if new < cur else 'larger'))
+            nres = 1
+            steps += [dict(op='reset', eps=sfr(new)), ev(r.choice(seen)), ev(r.choice(seen))]
         for st in steps:
             self.bump('hist/op=' + st['op'])
         self.bump('hist/resets=%s' % (nres if nres < 3 else '3+'))
@@ -858,7 +865,7 @@ class C19(PropCheck):
                     bad.append('step %d: unnormalised density %r at %r, a posterior constructed with the current cut-off %s gives %r'
                                % (k, o['val'], o['theta'], float(cur), tv))
                 cnt = sum(1 for d, c in zip(o['dists'], o['contains']) if ufr(d) <= cur and (c or not case['surrogate']))
-                if st['pt'] in last and last[st['pt']][0] != cur and last[st['pt']][1] != cnt:
+                if st['pt'] in last and last[st['pt']][0] != cur and last[st['pt']][1] != cnt and o['prior'] > 0:
                     visible += 1
                 last[st['pt']] = (cur, cnt)
                 o['op'] = 'eval'
